@@ -59,9 +59,12 @@ impl CallFrame { #[verifier::external_body] pub fn ip(&self) -> (r: IpPtr) ensur
 impl Clone for IpPtr { #[verifier::external_body] fn clone(&self) -> (r: Self) ensures r == *self { IpPtr { p: self.p } } }
 impl Copy for IpPtr {}
 /// the traceback being printed: one (frame, instruction pointer) pair per line, in print order
-pub struct TraceOut { pub ghost lines: Seq<(CallFrame, int)> }
+pub struct TraceOut { pub ghost lines: Seq<(CallFrame, int)>, pub ghost at: Seq<int> }
+/// byte offset of an instruction pointer inside its frame's function (ip.offset_from(code start))
+pub uninterp spec fn code_off(frame: CallFrame, ip: int) -> nat;
+#[verifier::external_body] pub fn verif_code_offset(frame: &CallFrame, ip: IpPtr) -> (r: usize) ensures r as nat == code_off(*frame, ip_val(ip)) { 0 }
 impl TraceOut {
-  /// R8: `  path:line in name` where line = get_line(ip.offset_from(code start) - 1) of the frame's function
+  /// R8: `  path:line in name` where line = get_line(at) of the frame's function; `at` is the code offset the line is looked up at
   #[verifier::external_body]
-  pub fn verif_frame_line(&mut self, frame: &CallFrame, ip: IpPtr) ensures final(self).lines == old(self).lines.push((*frame, ip_val(ip))) { }
+  pub fn verif_frame_line(&mut self, frame: &CallFrame, ip: IpPtr, at: usize) ensures final(self).lines == old(self).lines.push((*frame, ip_val(ip))), final(self).at == old(self).at.push(at as int) { }
 }
